@@ -54,8 +54,8 @@ CLAIMS = {
         'DESIGN.md section 5, C07',
     ),
     'C08': (
-        'On the real compare_with_config for all pairs of Short values and both modes: d(a,a)=0, symmetry, d <= max_distance, max attained (cover witness produced by the solver), d_Default = 0 => equal bytes, d_Default = d_NoLength + length distance, clear_checksum lowers d by the checksum distance. For the larger variants the same facts follow from the sum lemma (C02) and the part lemmas, each part distance being symmetric, bounded by its MAX_DISTANCE, zero iff equal, with max_distance equal to the sum of the part maxima (all checked).',
-        "Trusted: Kani's MIR->goto translation, CBMC 6.11 + CaDiCaL, the reference model in harness/refmodel.rs (independent table copies), the stubs listed per harness in the evidence (each a model of an unsupported intrinsic, a proved contract, or a caller-supplied trait impl). Direct whole-value harnesses for Normal are in the thorough tier; Long variants are by composition only.",
+        'On the real compare_with_config for all pairs of Short, Normal and LongWithLongChecksum values (and Short/NormalL/Long for the relations) and both modes: d(a,a)=0, symmetry, d <= max_distance, max attained (cover witness produced by the solver), d_Default = 0 => equal bytes, d_Default = d_NoLength + length distance, clear_checksum lowers d by the checksum distance. For the remaining variants and the table configurations the same facts follow from the sum lemma (C02) and the part lemmas, each part distance being symmetric, bounded by its MAX_DISTANCE, zero iff equal, with max_distance equal to the sum of the part maxima (all checked).',
+        "Trusted: Kani's MIR->goto translation, CBMC 6.11 + CaDiCaL, the reference model in harness/refmodel.rs (independent table copies), the stubs listed per harness in the evidence (each a model of an unsupported intrinsic, a proved contract, or a caller-supplied trait impl). The direct whole-value harnesses run in the table-less configuration K0 (the 64 KiB Q-ratio table makes them 30x slower); the table arms are tied in by cmp_qratios / cmp_length in K0, K1, K2.",
         'Kani/CBMC bounded model checking (SAT) of the compiled MIR with symbolic inputs; lemma decomposition; native replay of counterexamples',
         'DESIGN.md section 5, C08',
     ),
